@@ -1,4 +1,6 @@
 import SlipVerif.Model.Types
+import SlipVerif.Lemmas.Types
+import SlipVerif.Theorems.C16
 /-
   C16 — obligations over the regenerated tables (Gen/Hierarchies.lean: the Hierarchy() literals of
   package slip and the built-in class table of pkg/clos/built-in.go). Re-proved by `decide`
@@ -56,5 +58,18 @@ theorem subtypep_implies_typep : ∀ e ∈ hierarchies, ∀ ty, e.2.head? = some
 /-- every result type the modelled `coerce` targets produce belongs to the target type. -/
 theorem coerce_result_type : ∀ p ∈ coerceResults, ∀ ρ ∈ p.2, typep hierarchies ρ p.1 = true := by
   decide +kernel
+
+/-- `subtypep` on two-element specifiers such as `(vector fixnum)` is reflexive on the registered
+    classes … -/
+theorem specSub_refl_gen (s : TSpec) (hs : specRegistered classes s = true) : specSub classes s s = true :=
+  specSub_refl classes (fun c hc => subtype_refl c (mem_classNames_of_registered classes c hc)) s hs
+
+/-- … and transitive -/
+theorem specSub_trans_gen (s t u : TSpec) (h1 : specSub classes s t = true) (h2 : specSub classes t u = true) :
+    specSub classes s u = true :=
+  specSub_trans classes (fun a b c hab hbc =>
+    subtype_trans a (mem_classNames_of_registered classes a (registered_of_subtypep classes a b hab).1)
+      b (mem_classNames_of_registered classes b (registered_of_subtypep classes a b hab).2)
+      c (mem_classNames_of_registered classes c (registered_of_subtypep classes b c hbc).2) hab hbc) s t u h1 h2
 
 end SlipVerif.Types.Gen
